@@ -283,8 +283,29 @@ impl<'ast> SubsumedBy<'ast> for UnifRecordRows<'ast> {
                     RecordRowsF::Empty,
                 ) => Err(Box::new(RowUnifErrorKind::ExtraRow(id))),
             },
-            (UnifRecordRows::UnifVar { id, .. }, urrows)
-            | (urrows, UnifRecordRows::UnifVar { id, .. }) => {
+            (UnifRecordRows::UnifVar { id, init_level }, urrows)
+            | (urrows, UnifRecordRows::UnifVar { id, init_level }) => {
+                // Occurs check, see [UnifTable::occurs_in_type].
+                if let UnifRecordRows::Concrete {
+                    rrows: RecordRowsF::Extend { row, .. },
+                    ..
+                } = &urrows
+                    && state
+                        .table
+                        .occurs_in_rrows((VarKindDiscriminant::RecordRows, id), &urrows)
+                {
+                    return Err(Box::new(RowUnifErrorKind::RecordRowMismatch {
+                        id: row.id,
+                        cause: Box::new(UnifErrorKind::TypeMismatch {
+                            expected: UnifType::concrete(TypeF::Record(UnifRecordRows::UnifVar {
+                                id,
+                                init_level,
+                            })),
+                            inferred: UnifType::concrete(TypeF::Record(urrows.clone())),
+                        }),
+                    }));
+                }
+
                 if let UnifRecordRows::Constant(cst_id) = urrows {
                     let constant_level = state.table.get_rrows_level(cst_id);
                     state.table.force_rrows_updates(constant_level);
